@@ -34,6 +34,8 @@ class CellTranslator(AbstractTranslator):
                     lexer = Lexer.parse(cell.value, in_cell=cell)
                     ast = AstBuilder.parse(lexer, in_cell=cell)
                     code = EntryPointTokenTranslator.translate(ast, excel, context)
+                except RecursionError:
+                    raise E2PyclParserException(f'The formula of the cell {cell} is nested too deeply to be translated')
                 finally:
                     context._cells_in_progress.discard(cell.uid)
             else:
